@@ -83,7 +83,7 @@ theorem NI.push_sched {me base r q out} (h : NI me base r q out) (r' : Nat) (st 
     exact ⟨this.1, this.2.1, List.mem_append_left _ this.2.2⟩
 
 theorem NI.push_vote {me base r q out} (h : NI me base r q out) (t : VType) (x : Bid) :
-    NI me base r (q ++ [.vote ⟨t, r, x, me, true⟩]) (out ++ [.signVote t r x]) := by
+    NI me base r (q ++ [.vote ⟨t, r, x, me, true, me, me⟩]) (out ++ [.signVote t r x]) := by
   refine ⟨NI.ext_push h.ext _, ?_, ?_, ?_, ?_⟩
   · intro t₀ r₀ x₀ hm
     rcases List.mem_append.1 hm with a | a
